@@ -353,6 +353,20 @@ def s7_cases(tier: str, n: grammar.Names) -> list[tuple[tuple, dict[str, Any]]]:
             else:
                 prog = (use("g"), T, ("with", (("g", I(2)),), (use("g"),)), T, ("for", "g", V("arr"), (), (use("g"),), None), T, use("g"))
             cases.append((prog, {"arr": [1, 2, 3, 2], "g": 1}))
+    # one `call` node executed against several definitions of the macro (the definition in force is the one executed
+    # last): same parameter names with different defaults, more / fewer parameters, the same definition again
+    body = (("out", V("w")), ("text", ":"), ("out", V("d")), ("text", ":"), ("out", V("e")), ("text", ";"))
+    sigs = [
+        (("w", None), ("d", S("A"))), (("w", None), ("d", S("B"))), (("w", None), ("d", None)), (("w", None), ("d", V("g"))), (("w", None), ("d", S("A")), ("e", S("E"))), (("d", S("D")), ("w", None)),
+    ]
+    calls = [("call", "mm", (V("i"),), ()), ("call", "mm", (), (("w", V("i")),)), ("call", "mm", (V("i"),), (("e", I(7)),)), ("call", "mm", (V("i"), S("p2")), ())]
+    for s1 in sigs:
+        for s2 in sigs:
+            if s1 is s2:
+                continue
+            for cl in calls:
+                redefine = ("if", ((("cmp", "==", V("i"), I(2)), (("macro", "mm", s2, body),)),), (("macro", "mm", s1, body),))
+                cases.append(((("for", "i", V("arr"), (), (redefine, cl), None),), {"arr": [1, 2, 3, 2], "g": "G"}))
     return cases
 
 
@@ -421,6 +435,10 @@ def k_cases(tier: str) -> list[tuple]:
     ops, l0 = _STATE["ops"], _STATE["l0"]
     progs = [(("text", " x\n"), st, ("text", "\n y ")) for st in ops]
     progs += [(("text", " \n"), a, ("text", "\t"), b, ("text", "\n")) for a, b in itertools.product(l0[:20], repeat=2)]
+    # literal text that contains the opening of a markup that is never closed (`{#` without `#}`, a lone `{`): it is
+    # text, and only the white space next to a real tag is subject to trimming
+    look = [(("text", " x \n{# y \n"), st, ("text", "\n { z {# w \n"), st, ("text", " {#\n")) for st in l0[:20]]
+    progs += [p_ for p_ in look if "#}" not in print_program(p_)]
     return progs
 
 
